@@ -11,10 +11,10 @@ pub fn prop() -> Prop {
     Prop {
         id: "C15",
         level: "model_checking",
-        rule: "values = 30 (all types, absent, empty string, strings with quote, comma, CR, LF, tab, blanks at both ends, non-ASCII, strings spelled like keywords and numbers, 64-bit and fractional numbers, nested values holding such strings); csv: every row of 1..2 selections (3 selections: quick a slice of 2 700 rows, thorough all 27 000) over the values x 4 sets of selection names (plain; with blank, comma, quote; non-ASCII; two selections sharing a name) and multi-record inputs; text: every row of 1..2 selections over 24 values with an unambiguous spelling x every option set within 3 deviations of the defaults (thorough: the full product of 7 776 option sets) over items separator(4), string prefix/postfix(3), null/true/false keywords(3,2,2), missing-value keyword(3), --headers(2), escape sequences(3), row separator(3); non-trivial = the row holds a string with a special character, a nested value, an absent value or a keyword look-alike; distinct by construction",
+        rule: "values = 30 (all types, absent, empty string, strings with quote, comma, CR, LF, tab, blanks at both ends, non-ASCII, strings spelled like keywords and numbers, 64-bit and fractional numbers, nested values holding such strings); csv: every row of 1..2 selections (3 selections: quick a slice of 2 700 rows, thorough all 27 000) over the values x 4 sets of selection names (plain; with blank, comma, quote; non-ASCII; two selections sharing a name) and multi-record inputs; rows of 5 selections with a field of 15..8192 characters (quote, comma, line break or non-ASCII at the far end; long nested cells) in each column in turn; 100 and 1000 records in one run; text: every row of 1..2 selections over 24 values with an unambiguous spelling x every option set within 3 deviations of the defaults (thorough: the full product of 7 776 option sets) over items separator(4), string prefix/postfix(3), null/true/false keywords(3,2,2), missing-value keyword(3), --headers(2), escape sequences(3), row separator(3); non-trivial = the row holds a string with a special character, a nested value, an absent value or a keyword look-alike; distinct by construction",
         explanation: "csv output is read back by an independent RFC 4180 reader (skip-initial-space): header = the names in order, N fields per record, each field recovered by type (string content, decimal spelling by exact value, True/False/null, concise JSON re-read by the strict reader and free of insignificant whitespace); text output is compared byte for byte with the rendering the option help pins (prefix + escaped characters + postfix, keywords, separators)",
         assumptions: COMMON_ASSUMPTIONS.to_vec(),
-        guards: vec!["quote-in-string", "comma-in-string", "newline-in-string", "absent-field", "nested-with-special-string", "header-with-special-name", "escape-sequence-applied", "missing-keyword-printed", "text-headers", "three-fields"],
+        guards: vec!["long-fields", "quote-in-string", "comma-in-string", "newline-in-string", "absent-field", "nested-with-special-string", "header-with-special-name", "escape-sequence-applied", "missing-keyword-printed", "text-headers", "three-fields"],
         budget_s: (100, 1800),
         single_worker: false,
         run,
@@ -432,8 +432,116 @@ fn text_part(ctx: &mut Ctx) {
     ctx.level_done(&format!("text:{}-option-sets-within-{kmax}-deviations", sets.len()));
 }
 
+/// size thresholds for csv: long fields (quotes / commas / line breaks at the far end), long nested cells,
+/// 4 and 5 selections, many records in one run
+fn csv_sizes(ctx: &mut Ctx) {
+    for n in [15usize, 31, 32, 33, 63, 64, 65, 127, 128, 129, 1023, 1024, 1025, 4096, 8192] {
+        if !ctx.mine() {
+            continue;
+        }
+        ctx.guard("long-fields");
+        let body = "x".repeat(n - 1);
+        let vals: Vec<V> = vec![
+            V::Str(format!("{body}\"")),
+            V::Str(format!("\"{body}")),
+            V::Str(format!("{body},")),
+            V::Str(format!("{body}\n")),
+            V::Str(format!("{body}\u{e9}")),
+            V::Arr(vec![V::Str(body.clone()), V::int(1)]),
+            V::Obj(vec![(body.clone(), V::s("q\"r"))]),
+            V::Arr((0..n.min(300)).map(|i| V::int(i as i128)).collect()),
+        ];
+        // five columns: a long value in each position in turn, the others short
+        for (vi, v) in vals.iter().enumerate() {
+            for pos in 0..5usize {
+                let mut rec: Vec<(String, V)> = Vec::new();
+                let mut expect: Vec<Option<V>> = Vec::new();
+                for j in 0..5usize {
+                    if j == pos {
+                        rec.push((format!("c{j}"), v.clone()));
+                        expect.push(Some(v.clone()));
+                    } else if (j + vi) % 3 == 0 {
+                        expect.push(None);
+                    } else {
+                        let short = if j % 2 == 0 { V::int(j as i128) } else { V::s("s,\"") };
+                        rec.push((format!("c{j}"), short.clone()));
+                        expect.push(Some(short));
+                    }
+                }
+                let mut args: Vec<String> = vec!["--output-style=csv".into()];
+                for j in 0..5 {
+                    args.push(format!("--select=.c{j}=col {j}"));
+                }
+                let input = format!("{}\n{}\n", json::to_text(&V::Obj(rec.clone())), json::to_text(&V::Obj(rec)));
+                let case = Case::owned(args, input.into_bytes());
+                let obs = ctx.run(&case);
+                ctx.case_done();
+                ctx.trace_validated();
+                ctx.nontrivial();
+                let sig = format!("csv 5 columns, long {} of {n} in column {pos}", v.type_name());
+                let text = String::from_utf8_lossy(&obs.stdout).into_owned();
+                let mut fail: Option<String> = None;
+                if !obs.res.is_ok() {
+                    fail = Some(obs.res.short());
+                } else {
+                    match csv::read(&text, "\n") {
+                        Err(e) => fail = Some(e),
+                        Ok(recs) => {
+                            if recs.len() != 3 || recs.iter().any(|r| r.len() != 5) {
+                                fail = Some(format!("{} records with {:?} fields", recs.len(), recs.iter().map(|r| r.len()).collect::<Vec<_>>()));
+                            } else {
+                                for ri in 1..3 {
+                                    for j in 0..5 {
+                                        if let Err(e) = field_ok(&recs[ri][j], &expect[j]) {
+                                            fail = Some(format!("record {ri} field {j}: {e}"));
+                                        }
+                                    }
+                                }
+                                for j in 0..5 {
+                                    if recs[0][j].text != format!("col {j}") {
+                                        fail = Some("header".into());
+                                    }
+                                }
+                            }
+                        }
+                    }
+                }
+                if let Some(e) = fail {
+                    ctx.violation("csv-field-not-recovered", &sig, &[case.clone()], "header + 2 records of 5 fields, each recovered by type".into(), format!("{e}; stdout starts {:?}", crate::drive::trunc(&text, 120)));
+                } else {
+                    ctx.outcome("csv-ok");
+                }
+            }
+        }
+    }
+    // many records in one run
+    for total in [100usize, 1000] {
+        if !ctx.mine() {
+            continue;
+        }
+        let mut input = String::new();
+        for i in 0..total {
+            input.push_str(&format!("{{\"a\":{i},\"b\":\"r{i},\\\"q\"}}\n"));
+        }
+        let case = Case::owned(vec!["--output-style=csv".into(), "--select=.a=a".into(), "--select=.b=b".into(), "--select=.zz=c".into()], input.into_bytes());
+        let obs = ctx.run(&case);
+        ctx.case_done();
+        ctx.trace_validated();
+        let text = String::from_utf8_lossy(&obs.stdout).into_owned();
+        let ok = match csv::read(&text, "\n") {
+            Ok(recs) => recs.len() == total + 1 && recs.iter().enumerate().skip(1).all(|(i, r)| r.len() == 3 && r[0].text == (i - 1).to_string() && r[1].quoted && r[1].text == format!("r{},\"q", i - 1) && !r[2].quoted && r[2].text.is_empty()),
+            Err(_) => false,
+        };
+        if !ok || !obs.res.is_ok() {
+            ctx.violation("csv-field-not-recovered", &format!("csv {total} records"), &[case.clone()], format!("{total} records of 3 fields"), crate::drive::trunc(&text, 200));
+        }
+    }
+    ctx.level_done("csv:size-thresholds(fields-to-8192,5-columns,1000-records)");
+}
+
 fn run(ctx: &mut Ctx) {
     csv_part(ctx);
+    csv_sizes(ctx);
     text_part(ctx);
     let _ = Tier::Quick;
 }
